@@ -48,7 +48,11 @@ func (s *SecureChannel) VerifySessionSignature(cert, nonce, signature []byte) er
 	if err != nil {
 		return err
 	}
-	remoteKey := remoteX509Cert.PublicKey.(*rsa.PublicKey)
+	// a certificate with a non-RSA key cannot have produced the signature
+	remoteKey, ok := remoteX509Cert.PublicKey.(*rsa.PublicKey)
+	if !ok {
+		return ua.StatusBadCertificateInvalid
+	}
 
 	enc, err := uapolicy.Asymmetric(s.cfg.SecurityPolicyURI, s.cfg.LocalKey, remoteKey)
 	if err != nil {
